@@ -35,7 +35,11 @@ Space == {x \in {[ptype |-> a, pref |-> b, pbase |-> d, order |-> o, locals |-> 
             df \in BOOLEAN, tw \in BOOLEAN} \cup
           \* selfext: the near Thing EXTENDS the far Thing - a type and its base share their local name
           {[ptype |-> a, pref |-> "none", pbase |-> d, order |-> o, locals |-> "none", bname |-> FALSE, farfwd |-> ff, rec |-> FALSE, dflt |-> FALSE, two |-> FALSE, selfext |-> TRUE] :
-            a \in {"t", "o"}, d \in {"t", "o", "none"}, o \in {"users_first", "users_last"}, ff \in BOOLEAN} :
+            a \in {"t", "o"}, d \in {"t", "o", "none"}, o \in {"users_first", "users_last"}, ff \in BOOLEAN} \cup
+          \* innerhom: the far Thing has a member of the far type Inner (named through the far file's own prefix), and the
+          \* near namespace declares a type Inner too: a near type derived from the far Thing inherits a member of the FAR Inner
+          {[ptype |-> "t", pref |-> "none", pbase |-> "o", order |-> o, locals |-> "none", bname |-> FALSE, farfwd |-> ff, rec |-> FALSE, dflt |-> FALSE, two |-> FALSE, innerhom |-> TRUE] :
+            o \in {"users_first", "users_last"}, ff \in BOOLEAN} :
             /\ x.dflt => (~x.bname /\ x.locals = "none")
             /\ x.two => (x.pbase # "none" /\ ~x.rec /\ ~x.bname /\ x.locals = "none")}
 \* how a reference to the near namespace is written
@@ -63,10 +67,12 @@ DerivedNear(x) == [k |-> "complex", n |-> "DerivedNear", base |-> T(P(x, "t"), "
 DerivedUser(x) == [k |-> "complex", n |-> "DerivedUser", base |-> T(P(x, x.pbase), "Thing"),
                    content |-> << SeqP(1, "1", << El("ownMark", B("string"), 1, "1") >>) >>, attrs |-> <<>>]
 Users(x) == <<UserType(x)>> \o (IF x.two THEN <<DerivedNear(x)>> ELSE <<>>) \o (IF x.pbase = "none" THEN <<>> ELSE <<DerivedUser(x)>>)
+InnerHom(x) == "innerhom" \in DOMAIN x
+InnerType(mark) == [k |-> "complex", n |-> "Inner", base |-> None, content |-> << SeqP(1, "1", << El(mark, B("string"), 1, "1") >>) >>, attrs |-> <<>>]
 SelfExt(x) == "selfext" \in DOMAIN x
 ThingExt == [k |-> "complex", n |-> "Thing", base |-> T("o", "Thing"), content |-> << SeqP(1, "1", << El("nearMark", B("string"), 1, "1") >>) >>, attrs |-> <<>>]
 Decls(x) == <<ThingElem("t"), IF SelfExt(x) THEN ThingExt ELSE IF x.rec THEN RecThing ELSE ThingType("nearMark")>> \o (IF x.bname THEN <<DateType>> ELSE <<>>)
-            \o (IF x.rec THEN <<ThingKid>> ELSE <<>>)
+            \o (IF x.rec THEN <<ThingKid>> ELSE <<>>) \o (IF InnerHom(x) THEN <<InnerType("nearInnerMark")>> ELSE <<>>)
 
 File1(x) == [name |-> "f1.xsd", kind |-> "xsd", tns |-> "Unear",
              xmlns |-> << <<"t", "Unear">>, <<"o", "Ufar">> >> \o (IF x.dflt THEN << <<"", "Unear">> >> ELSE <<>>),
@@ -76,8 +82,11 @@ File1(x) == [name |-> "f1.xsd", kind |-> "xsd", tns |-> "Unear",
                        \o (IF x.locals = "last" THEN <<LocalHolder>> ELSE <<>>)]
 FarUser == [k |-> "complex", n |-> "FarUser", base |-> T("t", "Thing"),
             content |-> << SeqP(1, "1", << [k |-> "ref", ref |-> [p |-> "t", n |-> "Thing"], min |-> 0, max |-> "1"] >>) >>, attrs |-> <<>>]
+FarThingInner == [k |-> "complex", n |-> "Thing", base |-> None,
+                  content |-> << SeqP(1, "1", << El("farMark", B("string"), 1, "1"), El("farInner", T("t", "Inner"), 0, "1") >>) >>, attrs |-> <<>>]
 File2(x) == [name |-> "f2.xsd", kind |-> "xsd", tns |-> "Ufar", xmlns |-> << <<"t", "Ufar">> >>,
-             items |-> (IF x.farfwd THEN <<FarUser>> ELSE <<>>) \o << ThingType("farMark"), ThingElem("t") >>]
+             items |-> (IF x.farfwd THEN <<FarUser>> ELSE <<>>)
+                       \o (IF InnerHom(x) THEN << FarThingInner, ThingElem("t"), InnerType("farInnerMark") >> ELSE << ThingType("farMark"), ThingElem("t") >>)]
 SetOf(x) == [files |-> <<File1(x), File2(x)>>, start |-> "f1.xsd"]
 
 MCInit == c \in Space
@@ -107,7 +116,9 @@ Distinguishes ==
 Emit == PrintT(<<"CASE", ToJson([prop |-> "C09", drv |-> "gen", start |-> "f1.xsd", files |-> SetOf(c).files, shape |-> c])>>)
 
 N(x, p, s) == [xml |-> x, pascal |-> p, snake |-> s]
-Vocab == [names |-> [DerivedNear |-> N("DerivedNear", "DerivedNear", "derived_near"), nearOwn |-> N("nearOwn", "NearOwn", "near_own"),
+Vocab == [names |-> [Inner |-> N("Inner", "Inner", "inner"), farInner |-> N("farInner", "FarInner", "far_inner"),
+                     farInnerMark |-> N("farInnerMark", "FarInnerMark", "far_inner_mark"), nearInnerMark |-> N("nearInnerMark", "NearInnerMark", "near_inner_mark"),
+                     DerivedNear |-> N("DerivedNear", "DerivedNear", "derived_near"), nearOwn |-> N("nearOwn", "NearOwn", "near_own"),
                      ThingKid |-> N("ThingKid", "ThingKid", "thing_kid"), kidMark |-> N("kidMark", "KidMark", "kid_mark"),
                      FarUser |-> N("FarUser", "FarUser", "far_user"), Thing |-> N("Thing", "Thing", "thing"), date |-> N("date", "Date", "date"), LocalHolder |-> N("LocalHolder", "LocalHolder", "local_holder"),
                      UserType |-> N("UserType", "UserType", "user_type"), DerivedUser |-> N("DerivedUser", "DerivedUser", "derived_user"),
